@@ -408,6 +408,24 @@ def p6b(repo, res):
     geo = repo.cls("BaseGeo")
     fn = geo.methods.get("_init_position_orientation")
     res.require(fn is not None, "anchor vanished: BaseGeo._init_position_orientation")
+    # first the length evaluator (lengths.py): the two path lengths for every ordering of the input lengths, whatever the code shape
+    import lengths
+
+    def resolve(name):
+        r = repo.resolve_name(geo.mod, name)
+        return r[2] if r and r[0] == "func" else None
+    params = [a.arg for a in fn.args.args][1:3]
+    if len(params) == 2:
+        verdict, detail = lengths.equal_lengths_after(fn, resolve, params[0], params[1])
+        if verdict is not None:
+            res.ob("P6b:constructor pads for both orderings of the path lengths", verdict, {"rule": "P6b", "method": "length evaluation over the orderings of the two input lengths",
+                                                                                            "samples": lengths.SAMPLES, "unequal": detail})
+            if not verdict:
+                res.add(Finding("P6b", geo.mod.rel, "BaseGeo._init_position_orientation", fn,
+                                f"the padding does not cover every ordering of position-path length vs orientation-path length ({detail}): "
+                                "for the uncovered ordering the object is created with unequal path lengths", fn.lineno))
+            return
+        res.notes.append(f"P6b: length evaluation undecided ({detail}); falling back to the branch-shape rule")
     lens = {}
     for s_ in ast.walk(fn):
         if isinstance(s_, ast.Assign) and len(s_.targets) == 1:
